@@ -9,7 +9,12 @@ import (
 	"verifharness/kit"
 	"verifharness/kit/sim"
 
+	"github.com/sarchlab/akita/v5/mem"
 	"github.com/sarchlab/akita/v5/mem/cache"
+	"github.com/sarchlab/akita/v5/mem/cache/writeback"
+	"github.com/sarchlab/akita/v5/mem/idealmemcontroller"
+	"github.com/sarchlab/akita/v5/modeling"
+	"github.com/sarchlab/akita/v5/noc/directconnection"
 	"github.com/sarchlab/akita/v5/mem/memcontrolprotocol"
 	"github.com/sarchlab/akita/v5/mem/memprotocol"
 	"github.com/sarchlab/akita/v5/mem/vm"
@@ -20,6 +25,7 @@ import (
 type params struct {
 	NumReqs int  `json:"num_reqs"`
 	Filter  bool `json:"filter"`
+	Sibling bool `json:"sibling"`
 }
 
 func main() {
@@ -29,7 +35,7 @@ func main() {
 		Rule: "whole-hierarchy cases: a PRNG-drawn hierarchy with at least one write-back cache runs a random request stream; at a PRNG-chosen response count the drivers stop issuing and every cache is drained top-down and then flushed top-down " +
 			"(so evictions and fills are in flight when the drain starts); the backing storages are then read directly and compared with the flat reference at every written byte (bytes of still-unacknowledged writes may hold either value); " +
 			"the hierarchy is then re-enabled, finishes its stream under the read-data monitor, and is drained, flushed and compared again. Filter cases: one write-back cache with two processes; after a drain the directory is snapshotted, a Flush with an address and/or PID filter is sent, " +
-			"and the writes seen at the cache's Bottom port must be exactly the matching dirty lines, which become clean; other dirty lines stay dirty and every valid line stays valid. Non-trivial: at least one dirty line was written back by the flush; distinct by (configuration, stop point, filter)",
+			"and the writes seen at the cache's Bottom port must be exactly the matching dirty lines, which become clean; other dirty lines stay dirty and every valid line stays valid. Sibling cases: two write-back caches share a lower level and their drivers write disjoint 4-byte words of the same lines (so both hold partially dirty copies of one line); after both are drained and flushed every written word must be in memory. Non-trivial: at least one dirty line was written back by the flush; distinct by (configuration, stop point, filter)",
 		Assumptions: []string{"a flush address filter names a line by any address inside it (the flusher aligns addresses down); empty address list = all lines; PID 0 = all processes (as documented)"},
 		Plan: func(tier string, seed int64) []kit.Batch {
 			nb, n, nreq := 16, 4, 300
@@ -38,13 +44,13 @@ func main() {
 			}
 			var bs []kit.Batch
 			for i := 0; i < nb; i++ {
-				bs = append(bs, kit.Batch{Name: fmt.Sprintf("flush%d", i), Seed: seed*9973 + int64(i), N: n, Params: kit.MkParams(params{NumReqs: nreq, Filter: i%2 == 1})})
+				bs = append(bs, kit.Batch{Name: fmt.Sprintf("flush%d", i), Seed: seed*9973 + int64(i), N: n, Params: kit.MkParams(params{NumReqs: nreq, Filter: i%4 == 1 || i%4 == 3, Sibling: i%4 == 2})})
 			}
 			return bs
 		},
 		Run: run,
 		MustObserve: []string{"hierarchy_flushes_compared", "written_bytes_compared_with_storage", "dirty_lines_written_back_by_flush", "drains_started_with_requests_in_flight",
-			"filter_flushes_checked", "filter_flushes_leaving_some_dirty_lines"},
+			"filter_flushes_checked", "filter_flushes_leaving_some_dirty_lines", "sibling_flushes_compared", "sibling_lines_dirty_in_both_caches"},
 	})
 }
 
@@ -52,7 +58,9 @@ func run(b kit.Batch, r *kit.R) {
 	var p params
 	b.P(&p)
 	r.ForEach(b.N, func(c *kit.Case) {
-		if p.Filter {
+		if p.Sibling {
+			siblingCase(c, p)
+		} else if p.Filter {
 			filterCase(c, p)
 		} else {
 			hierarchyCase(c, p)
@@ -475,4 +483,150 @@ func filterCase(c *kit.Case, p params) {
 	}
 	c.Sample(desc)
 	_ = timing.VTimeInPicoSec(0)
+}
+
+// siblingCase: two write-back caches over one shared lower level, each with its own driver; the drivers
+// share cache lines but never bytes (even / odd 4-byte words).
+func siblingCase(c *kit.Case, p params) {
+	r := c.R
+	rng := c.Rng
+	log2 := uint64(4 + rng.Intn(3))
+	line := uint64(1) << log2
+	withL2 := rng.Intn(2) == 0
+	desc := map[string]any{"family": "sibling", "log2_blk": log2, "shared_l2": withL2}
+	dir := r.WorkDir
+	s := sim.NewSim(dir, false)
+	defer (&sim.Stack{Sim: s, Dir: dir}).Close()
+	eng := s.GetEngine().(*timing.SerialEngine)
+	pb := 1 + rng.Intn(4)
+	mk := func(name string, lower messaging.RemotePort, sets, ways int) *writeback.Comp {
+		sp := writeback.DefaultSpec()
+		sp.Log2BlockSize = log2
+		sp.WayAssociativity = ways
+		sp.TotalByteSize = uint64(sets*ways) << log2
+		sp.NumMSHREntry = 1 + rng.Intn(4)
+		sp.BankLatency = 1 + rng.Intn(4)
+		sp.DirLatency = rng.Intn(3)
+		sp.NumReqPerCycle = 1 + rng.Intn(3)
+		sp.WriteBufferCapacity = 1 + rng.Intn(4)
+		sp.MaxInflightFetch, sp.MaxInflightEviction = 1+rng.Intn(4), 1+rng.Intn(4)
+		cc := writeback.MakeBuilder().WithRegistrar(s).WithSpec(sp).
+			WithResources(writeback.Resources{AddressToPortMapper: &mem.SinglePortMapper{Port: lower}}).Build(name)
+		for _, n := range []string{"Top", "Bottom", "Control"} {
+			cc.AssignPort(n, modeling.MakePortBuilder().WithRegistrar(s).WithComponent(cc).WithSpec(modeling.PortSpec{BufSize: pb}).Build(n))
+		}
+		return cc
+	}
+	msp := idealmemcontroller.DefaultSpec()
+	msp.Latency = 1 + rng.Intn(12)
+	msp.Capacity = 1 << 32
+	m := idealmemcontroller.MakeBuilder().WithRegistrar(s).WithSpec(msp).Build("Mem0")
+	for _, n := range []string{"Top", "Control"} {
+		m.AssignPort(n, modeling.MakePortBuilder().WithRegistrar(s).WithComponent(m).WithSpec(modeling.PortSpec{BufSize: pb}).Build(n))
+	}
+	lower := m.GetPortByName("Top").AsRemote()
+	var l2 *writeback.Comp
+	if withL2 {
+		l2 = mk("L2", lower, 1+rng.Intn(4), 1+rng.Intn(4))
+		lower = l2.GetPortByName("Top").AsRemote()
+	}
+	var l1 [2]*writeback.Comp
+	var drv [2]*sim.Driver
+	numLines := uint64(4 + rng.Intn(12))
+	for k := 0; k < 2; k++ {
+		l1[k] = mk(fmt.Sprintf("L1x%d", k), lower, 1+rng.Intn(4), 1+rng.Intn(3))
+		ds := sim.DriverSpec{Freq: 1 * timing.GHz, Seed: uint64(rng.Int63()), NumReqs: p.NumReqs / 2, MaxInflight: 1 + rng.Intn(8), IssuePerTick: 1 + rng.Intn(2),
+			LineSize: line, NumLines: numLines, ReadPct: 30, MaskPct: 30, WordMod: 2, WordRem: uint64(k), Dsts: []string{string(l1[k].GetPortByName("Top").AsRemote())}}
+		drv[k] = sim.BuildDriver(s, fmt.Sprintf("Driver%d", k), ds, pb)
+		k := k
+		drv[k].OnError = func(key, msg string) { c.Fail("flush/sibling/"+key, map[string]any{"msg": msg, "driver": k, "desc": desc}) }
+	}
+	ctrl := sim.BuildCtrlDriver(s, "CtrlDriver", pb)
+	conn := directconnection.MakeBuilder().WithRegistrar(s).Build("Conn")
+	conn.PlugIn(m.GetPortByName("Top"))
+	ctl := directconnection.MakeBuilder().WithRegistrar(s).Build("CtrlConn")
+	ctl.PlugIn(ctrl.GetPortByName("Ctrl"))
+	ctl.PlugIn(m.GetPortByName("Control"))
+	caches := []*writeback.Comp{l1[0], l1[1]}
+	if l2 != nil {
+		caches = append(caches, l2)
+	}
+	for _, cc := range caches {
+		conn.PlugIn(cc.GetPortByName("Top"))
+		conn.PlugIn(cc.GetPortByName("Bottom"))
+		ctl.PlugIn(cc.GetPortByName("Control"))
+	}
+	for k := 0; k < 2; k++ {
+		conn.PlugIn(drv[k].GetPortByName("Mem"))
+		drv[k].TickLater()
+	}
+	c.Desc(desc)
+	if err := eng.Run(); err != nil {
+		c.Failf("flush/engine-error", "%v", err)
+		return
+	}
+	for k := 0; k < 2; k++ {
+		if !drv[k].Done() {
+			c.Fail("flush/sibling/unanswered", map[string]any{"driver": k, "outstanding": drv[k].State.Inflight, "desc": desc})
+			return
+		}
+	}
+	// lines dirty in both L1 caches at the same time
+	dirtyIn := func(cc *writeback.Comp) map[uint64]bool {
+		o := map[uint64]bool{}
+		for _, set := range cc.State.DirectoryState.Sets {
+			for _, b := range set.Blocks {
+				if b.IsValid && b.IsDirty {
+					o[b.Tag] = true
+				}
+			}
+		}
+		return o
+	}
+	a, b := dirtyIn(l1[0]), dirtyIn(l1[1])
+	both := 0
+	for t := range a {
+		if b[t] {
+			both++
+		}
+	}
+	r.Count("sibling_lines_dirty_in_both_caches", int64(both))
+	order := []*writeback.Comp{l1[0], l1[1]}
+	if rng.Intn(2) == 0 {
+		order = []*writeback.Comp{l1[1], l1[0]}
+	}
+	if l2 != nil {
+		order = append(order, l2)
+	}
+	for _, cc := range order {
+		for _, cmd := range []memcontrolprotocol.Command{memcontrolprotocol.CmdDrain, memcontrolprotocol.CmdFlush} {
+			n := len(ctrl.Acks)
+			ctrl.Send(sim.CtrlCmd{Dst: cc.GetPortByName("Control").AsRemote(), Command: cmd})
+			eng.Run()
+			if len(ctrl.Acks) != n+1 || !ctrl.Acks[n].Rsp.Success {
+				c.Fail("flush/control-request-not-acknowledged", map[string]any{"cmd": fmt.Sprintf("%v -> %s", cmd, cc.Name()), "desc": desc})
+				return
+			}
+		}
+	}
+	st := m.Resources().Storage
+	bad := 0
+	for k := 0; k < 2; k++ {
+		for _, pa := range drv[k].WrittenBytes() {
+			got, _ := st.Read(pa[1], 1)
+			r.Count("written_bytes_compared_with_storage", 1)
+			if got[0] != drv[k].RefByte(0, pa[1]) {
+				bad++
+				if bad <= 3 {
+					c.Fail("flush/backing-memory-stale", map[string]any{"phase": "sibling", "addr": pa[1], "storage_holds": got[0], "last_acknowledged_write": drv[k].RefByte(0, pa[1]), "driver": k, "desc": desc})
+				}
+			}
+		}
+	}
+	r.Count("sibling_flushes_compared", 1)
+	r.Count("hierarchy_flushes_compared", 1)
+	if both > 0 {
+		j, _ := json.Marshal(desc)
+		c.Nontrivial(fmt.Sprintf("%s/%d", j, c.Seed))
+	}
 }
